@@ -12,6 +12,7 @@ import (
 	"errors"
 	"fmt"
 	"iter"
+	"reflect"
 	"strings"
 	"time"
 
@@ -154,6 +155,10 @@ type hcase struct {
 	Ops     []hop  `json:"ops"`
 	At      int    `json:"fault_at"`
 	Fault   string `json:"fault"`
+	// HookPub: the buses have a context-aware before-publish hook that itself publishes one
+	// more event of the subscribed type for every event published from outside (a re-entrant
+	// publish from inside a hook)
+	HookPub bool `json:"hook_publishes,omitempty"`
 }
 
 func (c hcase) String() string {
@@ -167,6 +172,9 @@ func (c hcase) String() string {
 	}
 	if c.Timeout {
 		s += " WithPersistenceTimeout(1h)"
+	}
+	if c.HookPub {
+		s += " before-publish hook that publishes"
 	}
 	if c.At != 0 {
 		s += fmt.Sprintf(" fault=%s@op%d", c.Fault, c.At)
@@ -182,6 +190,7 @@ type deliv struct {
 
 type world struct {
 	timeout bool
+	hookPub bool
 	med     *stores.Medium
 	hd      *stores.Handle
 	fs      *fstore
@@ -255,6 +264,15 @@ func (w *world) newBus() {
 	if w.timeout {
 		opts = append(opts, eventbus.WithPersistenceTimeout(time.Hour))
 	}
+	if w.hookPub {
+		var self *eventbus.EventBus
+		opts = append(opts, eventbus.WithBeforePublishContext(func(ctx context.Context, t reflect.Type, ev any) {
+			if a, ok := ev.(A); ok && a.N < 1000 && self != nil {
+				eventbus.PublishContext(self, ctx, A{N: a.N + 1000})
+			}
+		}))
+		defer func() { self = w.bus }()
+	}
 	w.bus = eventbus.New(opts...)
 }
 
@@ -323,7 +341,7 @@ func runHistoryBody(c hcase) []string {
 		vrt.MachineryFault("%v", err)
 	}
 	defer hd.Close()
-	w := &world{med: med, hd: hd, timeout: c.Timeout}
+	w := &world{med: med, hd: hd, timeout: c.Timeout, hookPub: c.HookPub}
 	w.fs = &fstore{st: hd.Store, str: hd.Stream, sub: hd.Sub, at: c.At, kind: c.Fault}
 	w.newBus()
 	at := w.fs.at
@@ -828,6 +846,21 @@ func run(c *h.Check) {
 				c.Count("nontrivial", 1)
 				for _, m := range runHistory(hc) {
 					c.Violate("history", sigOf(hc, m)+" (bus with WithPersistenceTimeout)", hc.String()+"\n"+m, hc)
+				}
+			}
+		}
+		// a before-publish hook that publishes an event of the subscribed type itself
+		if k == "memory" || k == "sqlite" {
+			for _, ops := range histories(3) {
+				idx++
+				if !c.Mine(idx) {
+					continue
+				}
+				hc := hcase{Kind: k, Ops: ops, HookPub: true}
+				c.Count("evaluations", 1)
+				c.Count("nontrivial", 1)
+				for _, m := range runHistory(hc) {
+					c.Violate("history", sigOf(hc, m)+" (a before-publish hook publishes too)", hc.String()+"\n"+m, hc)
 				}
 			}
 		}
